@@ -674,6 +674,3 @@ Qed.
 Definition C01_race_ok := fun dropsf => @C01_pass kst rok_poll dropsf.
 Definition C01_chain := fun dropsf => @C01_pass cst chain_poll dropsf.
 Definition C01_wait_until := fun dropsf => @C01_pass ust wait_poll dropsf.
-Check (fun dropsf w0 ops c k => C01_race_ok dropsf w0 ops c k rok_poll_HP).
-Check (fun dropsf w0 ops c k => C01_chain dropsf w0 ops c k chain_poll_HP).
-Check (fun dropsf w0 ops c k => C01_wait_until dropsf w0 ops c k wait_poll_HP).
